@@ -134,6 +134,7 @@ def prepare_globals(record):
 
     lib.set_alias(record.get('alias_objects', False))
     lib.set_from_shape(record.get('grid_from_shape', False))
+    lib.set_door_assign(record.get('door_status_assigned', False))
     if not record.get('keep_caches', False):
         clear_caches()
 
